@@ -841,7 +841,7 @@ impl Property for C03 {
     fn rule(&self) -> String {
         "lex: every string over the 14-character alphabet {\\ { ^ space LF CR NUL DEL é a 5 % ~ M} up to length 3 (quick) / 4 (thorough: every table for the strings with a doubled ^ a 5 M é CR or blank, the 6 plain tables for all; plus length 5 under the plain table with endlinechar CR/none) \
          x 44 category tables (plain with 6 default categories + 38 single changes of ^, space, CR, a, 5, M, é, DEL, NUL, \\, %) x endlinechar in {none, CR, a, ^, space}, report_end_of_line on (off for every 4th); \
-         then random texts up to 48 characters (expanded codes, hex pairs, non-ASCII, blank lines, trailing blanks, no final newline) with random tables (plain / 25% changed / all random) and random endlinechar; \
+         runs of 255/256/257/300 blanks, newlines, letters, lines, ^^M, é, control words, comment lines in three contexts; then random texts up to 48 characters (expanded codes, hex pairs, non-ASCII, blank lines, trailing blanks, no final newline) with random tables (plain / 25% changed / all random) and random endlinechar; \
          vm: real VM<StdLibState> running text with \\catcode and \\endlinechar changes mid-file, directly (…\\relax) or hidden in macros, with or without a blank before the following text which mostly starts with the recategorised character (10 categories x 8 characters x direct/macro systematically), compared with the Lean spec specSched under the per-call configuration (impl-vs-spec); wide characters U+0100/0200/2000/10000+b for 18 special ASCII bytes b in text, after and inside names, at line ends, and as \\catcode targets; \
          vmc: one line of \\catcode/\\endlinechar settings (endlinechar in {-2,-1,0,1,13,32,37,65,94,97,126,127,128,255,256} x every category for that character, NUL/DEL/^^A/... with 14 categories) then 2-5 plain lines, the VM's tokens of the lines after the first compared with the Lean spec under the final configuration. \
          Non-trivial = the source has at least 2 characters; distinct = distinct case string."
@@ -929,6 +929,19 @@ impl Property for C03 {
                     count += 1;
                     let t = Table { eol, dflt: 12, pairs: BASE.to_vec() };
                     v.push(lex_case(count % 4 != 0, &t, &s));
+                }
+            }
+        }
+        // sizes: runs of 255 / 256 / 257 / 300 blanks, newlines, characters, expanded codes, wide
+        // characters (counters and casts that only wrap beyond a byte)
+        for k in [255usize, 256, 257, 300] {
+            for unit in [" ", "\n", "a", "a\n", " \n", "^^M", "é", "\\a ", "% \n"] {
+                for (pre, post) in [("x", "y\nz"), ("", " \n w"), ("\\b", "")] {
+                    for eol in [Some('\r'), None] {
+                        count += 1;
+                        let t = Table { eol, dflt: 12, pairs: BASE.to_vec() };
+                        v.push(lex_case(count % 4 != 0, &t, &format!("{pre}{}{post}", unit.repeat(k))));
+                    }
                 }
             }
         }
